@@ -337,6 +337,8 @@ class SafetyMonitor(Monitor):
             return True
         # sub-procedures created by the op must be well-formed too
         extra = (call.extra if call is not None else None) or ()
+        if probs_old:
+            extra = ()  # the input was already ill-scoped (an earlier step's finding): nothing to attribute here
         for x in extra:
             if hasattr(x, "_loopir_proc"):
                 p2 = irutil.validate(x._loopir_proc)
